@@ -379,3 +379,124 @@ class C20(Monitor):
                     'C20|' + _opkey(tr) + '|rebuild-differs',
                     f"{tr.expr}: rebuilding from fresh sub-objects gives a different value",
                     '\n'.join(['a = ' + succ.expr, 'b = ' + succ.expr, 'assert str(a) == str(b)'])))
+
+
+# ----------------------------------------------------------------------------------
+def _renumber(t, counter):
+    """re-number capture groups in opening order"""
+    if t[0] == 'cap':
+        counter[0] += 1
+        idx = counter[0]
+        return ('cap', idx, t[2], _renumber(t[3], counter))
+    return tuple(_renumber(x, counter) if isinstance(x, tuple) and x and isinstance(x[0], str) else x for x in t)
+
+
+def renumber(t):
+    return _renumber(t, [0])
+
+
+def caps_of(t, out=None):
+    out = [] if out is None else out
+    if t[0] == 'cap':
+        out.append(t[2])
+    for x in t[1:]:
+        if isinstance(x, tuple) and x and isinstance(x[0], str):
+            caps_of(x, out)
+    return out
+
+
+def _has_own_ref(t):
+    if t[0] in ('ref', 'cond') and t[1] == 'own':
+        return True
+    return any(isinstance(x, tuple) and x and isinstance(x[0], str) and _has_own_ref(x) for x in t[1:])
+
+
+class C08(Monitor):
+    """capturing-group structure predicted by a tree model of capture()/group()"""
+    pid = 'C08'
+    IGN = re.IGNORECASE
+
+    @staticmethod
+    def single_plain_group(text, inctx):
+        """the whole text is one `(?:...)` group (which the parser would inline)"""
+        if not (text.startswith('(?:') and text.endswith(')')):
+            return False
+        try:
+            rx.parse(text[3:-1], inctx)
+            return True
+        except re.error:
+            return False
+
+    def expected(self, op, T, plain):
+        if op.name == 'capture':
+            name = op.params[0]
+            if T[0] == 'cap' and not plain:
+                return ('cap', 0, name if name is not None else T[2], T[3])
+            return ('cap', 0, name, T)
+        ci = op.params[0]
+        if plain:
+            body = T
+        elif T[0] == 'cap':
+            body = T[3]
+        elif T[0] == 'flag':
+            body = T[3]
+        else:
+            body = T
+        return ('flag', int(self.IGN), 0, body) if ci else body
+
+    def on_transition(self, tr, succ, acc):
+        if tr.op.family != 'group':
+            return
+        x = tr.operands[0]
+        if tr.result is None:
+            acc.viol.append(V('C08|' + _opkey(tr) + '|raised:' + _exc_name(tr.exc),
+                              f"{tr.expr} raised {_exc_name(tr.exc)}", '\n'.join(_code_prefix(tr))))
+            return
+        if x.text == '':
+            return   # C05
+        try:
+            px = rx.parse(x.text)
+        except re.error:
+            acc.count('operand_unparsable')
+            return
+        if _has_own_ref(px.tree):
+            acc.count('operand_refers_to_own_group_unspecified')
+            return
+        if len(set(n for n in caps_of(px.tree) if n)) != len([n for n in caps_of(px.tree) if n]):
+            return
+        exp = renumber(self.expected(tr.op, px.tree, self.single_plain_group(x.text, px.inctx)))
+        names = [n for n in caps_of(exp) if n]
+        if len(set(names)) != len(names):
+            acc.count('duplicate_names_out_of_scope')
+            return
+        text = str(tr.result)
+        acc.count('group_transitions_judged')
+        try:
+            pr = rx.parse(text, px.inctx)
+        except re.error as e:
+            acc.viol.append(V('C08|' + _opkey(tr) + '|uncompilable',
+                              f"{tr.expr} -> {text!r} which re rejects: {e}",
+                              '\n'.join(_code_prefix(tr) + ['from mc import rx', 'assert rx.compiles(str(r))[0], str(r)'])))
+            return
+        if pr.tree == exp:
+            acc.count('decided_by_tree')
+            return
+        # different trees: compare behaviour, including groups
+        try:
+            ref = rx.render(exp)
+        except rx.Unparsable:
+            acc.count('unrenderable')
+            return
+        v, detail = rx.equiv(text, ref)
+        acc.count('decided_by_' + v)
+        if v in ('tree', 'texts') :
+            return
+        if v == 'error_b':
+            return
+        acc.viol.append(V(
+            'C08|' + _opkey(tr) + '|structure',
+            f"{tr.expr} -> {text!r}; the documented group structure is {ref!r}: {detail}",
+            '\n'.join(_code_prefix(tr) + ['from mc import rx', 'ref = %r' % ref,
+                                          "v = rx.equiv(str(r), ref)",
+                                          "assert v[0] in ('tree', 'texts'), (str(r), ref, v)"]),
+            observed=text, expected=ref))
